@@ -119,6 +119,24 @@ def hostile_cases(rnd):
             cases.append(("extreme-date-strict", f"BEGIN:VTODO\r\nDUE;TZID={tz}:{stamp}\r\nRDATE;TZID={tz}:{stamp},{stamp}\r\nEND:VTODO\r\n"))
     cases.append(("tzid-list", "BEGIN:VEVENT\r\nDTSTART;TZID=Europe/Berlin,Europe/Paris:20240101T100000\r\nEND:VEVENT\r\n"))
     cases.append(("tzid-list-strict", "BEGIN:VTODO\r\nDUE;TZID=a,b:20240101T100000\r\nEND:VTODO\r\n"))
+    # every rule part x every malformed item shape (the decoders of the parts differ: vInt, vMonth, vWeekday, vDDDTypes, vFrequency,
+    # vSkip): empty, empty list items, sign only, letters, a wrong-typed item, a doubled "=", a repeated part
+    for part in ("COUNT", "INTERVAL", "BYSECOND", "BYMINUTE", "BYHOUR", "BYWEEKNO", "BYMONTHDAY", "BYYEARDAY", "BYMONTH", "UNTIL", "BYSETPOS", "WKST", "BYDAY",
+                 "FREQ", "BYWEEKDAY", "SKIP", "RSCALE", "X-PART"):
+        for item in ("", ",", "1,", ",2", "-", "+", "L", "5LL", "x", "MO,", "1.5", "20240101T", "=", "1=2", " ", "\u00b2", "1,,2"):
+            rest = "" if part == "FREQ" else "FREQ=DAILY;"
+            cases.append(("rrule-part-item", f"BEGIN:VEVENT\r\nUID:1\r\nRRULE:{rest}{part}={item}\r\nEND:VEVENT\r\n"))
+            if (len(part) + len(item)) % 3 == 0:
+                cases.append(("rrule-part-item-strict", f"BEGIN:VTODO\r\nRRULE:{rest}{part}={item};{part}={item}\r\nEXRULE:{rest}{part.lower()}={item}\r\nEND:VTODO\r\n"))
+    # the same for the other comma / semicolon separated value types
+    for line in ("EXDATE:,", "EXDATE:20240101,", "RDATE:,20240101T000000", "RDATE;VALUE=PERIOD:,", "RDATE;VALUE=PERIOD:20240101T000000/", "RDATE;VALUE=PERIOD:/PT1H",
+                 "FREEBUSY:,", "FREEBUSY:/", "GEO:;", "GEO:1;", "GEO:;2", "REQUEST-STATUS:;", "REQUEST-STATUS:", "CATEGORIES:,", "RESOURCES:,,", "TRIGGER:", "TRIGGER:-", "TRIGGER:P",
+                 "DURATION:PT", "DURATION:+", "TZOFFSETFROM:", "TZOFFSETFROM:+", "TZOFFSETTO:-0", "SEQUENCE:", "SEQUENCE:-", "PRIORITY:+", "PERCENT-COMPLETE:", "ATTACH;VALUE=BINARY:",
+                 "ATTACH;ENCODING=BASE64;VALUE=BINARY:=", "DTSTART;VALUE=DATE:", "DTSTART;VALUE=TIME:", "DTSTART;VALUE=:20240101", "X-B;VALUE=BOOLEAN:", "X-F;VALUE=FLOAT:",
+                 "X-F;VALUE=FLOAT:.", "X-F;VALUE=FLOAT:-", "X-I;VALUE=INTEGER:", "X-U;VALUE=UTC-OFFSET:", "X-R;VALUE=RECUR:", "X-R;VALUE=RECUR:;", "X-P;VALUE=PERIOD:", "X-D;VALUE=DURATION:",
+                 "X-C;VALUE=CAL-ADDRESS:", "X-T;VALUE=DATE-TIME:T", "X-T;VALUE=DATE-TIME:20240101T000000ZZ"):
+        cases.append(("empty-items", f"BEGIN:VEVENT\r\nUID:1\r\n{line}\r\nEND:VEVENT\r\n"))
+        cases.append(("empty-items-strict", f"BEGIN:VTODO\r\n{line}\r\nEND:VTODO\r\n"))
     cases.append(("rrule-until-time", "BEGIN:VEVENT\r\nRRULE:FREQ=WEEKLY;UNTIL=2010000\r\nRRULE:FREQ=DAILY;UNTIL=120000Z\r\nEND:VEVENT\r\n"))
     cases.append(("rrule-todo", "BEGIN:VTODO\r\nRRULE:FREQ=DAILY;COUNT=x\r\nEND:VTODO\r\n"))
     cases.append(("rrule-ok-roundtrip", "BEGIN:VTODO\r\nRRULE:FREQ=DAILY;UNTIL=20240101T000000Z;BYDAY=MO,-1TU;BYMONTH=5L\r\nEXRULE:FREQ=WEEKLY\r\nEND:VTODO\r\n"))
